@@ -12,6 +12,7 @@ brightness weights, and that each inverse direction is literally
 import Pastel.RealInst
 import Pastel.Model.Color
 import Pastel.Lemmas.HslOutside
+import Pastel.Lemmas.HsvCone
 
 namespace Pastel.C04
 open Pastel
@@ -157,5 +158,32 @@ theorem hsl_saturation_clamped_first :
     (let c := toRgba8 ({ hue := hueFrom (30.0 : Float), sat := 2.0, light := 0.25, alpha := 1.0 } : Color Float);
       (c.r.toNat, c.g.toNat, c.b.toNat)) = (191, 64, 0) := by
   decide +kernel
+
+/-! ### The inverse clause for HSV, and the HSL inverse in closed form -/
+
+/-- **The HSV inverse clause, HSV within its natural ranges** (exact arithmetic, every hue in
+`[0, 360]`, saturation and value in `[0, 1]`, any alpha): the float channels of `from_hsva(H,S,V,a)`
+are the published hexcone inverse `V − V·S·(1 − κ(H/60))` with the three clamped tents `κ`, and the
+8-bit channels are those values rounded. -/
+theorem hsv_inverse_is_hexcone (H S V a : ℝ) (hH : 0 ≤ H ∧ H ≤ 360) (hS : 0 ≤ S ∧ S ≤ 1) (hV : 0 ≤ V ∧ V ≤ 1) :
+    (toRgba8 (fromHsva H S V a : Color ℝ)).r = Sc.toU8 (Sc.round (255.0 * (kR (H / 60) * (V * S) + (V - V * S)) : ℝ)) ∧
+    (toRgba8 (fromHsva H S V a : Color ℝ)).g = Sc.toU8 (Sc.round (255.0 * (kG (H / 60) * (V * S) + (V - V * S)) : ℝ)) ∧
+    (toRgba8 (fromHsva H S V a : Color ℝ)).b = Sc.toU8 (Sc.round (255.0 * (kB (H / 60) * (V * S) + (V - V * S)) : ℝ)) := by
+  obtain ⟨hx, hy, hz⟩ := fromHsva_channels H S V a hH hS hV
+  unfold toRgba8
+  simp only [hx, hy, hz]
+  exact ⟨trivial, trivial, trivial⟩
+
+/-- **The hexcone in closed form for `from_hsla`, all arguments** (exact arithmetic): the float
+channels of `from_hsla(h, s, l, a)` are `κ(t)·C + m` with `t = Hue::value(h)/60`, the chroma
+`C = (1 − |2l' − 1|)·s'` and `m = l' − C/2` of the **clamped** saturation `s'` and lightness `l'` —
+the published HSL inverse, applied after the clamp (for saturations outside `[0,1]` this is where
+the implementation departs from "transform, then clamp": see `hsl_saturation_clamped_first`). -/
+theorem hsl_inverse_closed_form (h s l a : ℝ) :
+    let c := (fromHsla h s l a : Color ℝ)
+    toRgbaFloat c = ⟨kR (hueValue c.hue / 60) * ((1 - |2 * c.light - 1|) * c.sat) + (c.light - (1 - |2 * c.light - 1|) * c.sat / 2),
+      kG (hueValue c.hue / 60) * ((1 - |2 * c.light - 1|) * c.sat) + (c.light - (1 - |2 * c.light - 1|) * c.sat / 2),
+      kB (hueValue c.hue / 60) * ((1 - |2 * c.light - 1|) * c.sat) + (c.light - (1 - |2 * c.light - 1|) * c.sat / 2), c.alpha⟩ :=
+  toRgbaFloat_closed _
 
 end Pastel.C04
